@@ -60,6 +60,8 @@ class Reporter:
         if not self.new:
             return 0
         d = os.path.join(VERIF, "replays", self.pid)
+        if os.environ.get("VERIF_REPO", "/repo") != "/repo":
+            d = os.path.join(os.environ.get("VERIF_EVIDENCE_DIR", "/tmp/verif_alt_evidence"), "replays", self.pid)
         os.makedirs(d, exist_ok=True)
         seen = set()
         for key, case, what in self.new:
